@@ -160,6 +160,8 @@ def pack_value(v):
         return {"t": type(v).__name__, "v": v.raw}
     if isinstance(v, list):
         return {"t": "list", "v": [pack_value(x) for x in v]}
+    if isinstance(v, tuple):
+        return {"t": "tuple", "v": [pack_value(x) for x in v]}
     if isinstance(v, DPTBinary):
         return {"t": "DPTBinary", "v": v.value}
     if isinstance(v, DPTArray):
@@ -185,6 +187,8 @@ def unpack_value(d):
         return GroupAddress(v)
     if t == "list":
         return [unpack_value(x) for x in v]
+    if t == "tuple":
+        return tuple(unpack_value(x) for x in v)
     if t == "DPTBinary":
         return DPTBinary(v)
     if t == "DPTArray":
@@ -216,7 +220,11 @@ def assign_field(base, path, value):
     if "." in path:
         head, tail = path.split(".", 1)
         inner = getattr(obj, head)
-        inner = SecureData(**{n: getattr(inner, n) for n in SECURE_DATA_FIELDS})
+        if isinstance(inner, (DPTBinary, DPTArray)):
+            # the payload object itself is mutable: a fresh copy of it is changed in place after the service object was built
+            inner = DPTBinary(inner.value) if isinstance(inner, DPTBinary) else DPTArray(tuple(inner.value))
+        else:
+            inner = SecureData(**{n: getattr(inner, n) for n in SECURE_DATA_FIELDS})
         setattr(inner, tail, value)
         setattr(obj, head, inner)
     else:
@@ -360,7 +368,23 @@ def baselines(ctx, live):
     return out
 
 
+def sweep_payload_object(ctx, sweep, cname, frame, base):
+    """GroupValueWrite/Response carry a DPTBinary/DPTArray object: its own `value` changed in place after construction."""
+    inner = getattr(base, "value", None)
+    if isinstance(inner, DPTBinary):
+        values = list(range(-2, 70)) + [127, 128, 191, 255, 256, 0x141, 1 << 16, -64]
+    elif isinstance(inner, DPTArray):
+        values = [(), (1,), (0, 255), (0,) * 253, (1,) * 254, (256,), (-1,), (1, 2, 3, 4)]
+    else:
+        return
+    for value in values:
+        late = assign_field(base, "value.value", value)
+        sweep.judge(late, cname, "value.value", value, frame, {}, assigned=True)
+        ctx.count("payload_object_changed_in_place_cases")
+
+
 def sweep_class(ctx, sweep, cname, frame, base, rng, variants):
+    sweep_payload_object(ctx, sweep, cname, frame, base)
     paths = field_paths(base)
     good = {}
     unknown = []
@@ -426,7 +450,7 @@ def run(ctx):
         "declared type; other fields at baseline, then random; distinct = (class, field, roundtrip | refused x exception class)"
     )
     ctx.require("objects_encoded", "objects_refused", "fields_swept", "service_classes_swept", "random_other_fields_cases",
-                "assigned_after_construction_cases")
+                "assigned_after_construction_cases", "payload_object_changed_in_place_cases")
     live = live_service_classes()
     base = baselines(ctx, live)
     sweep = Sweep(ctx)
